@@ -199,6 +199,64 @@ theorem rfnOutLabels_sublist (db : List (Series V)) (fn : RFn) (rng : Int) (ms :
       · exact List.Sublist.cons _ ih
       · exact ih
 
+/-- a node that maps a per-step function over its child's values inherits pointwiseness. -/
+theorem pointwise_unary (db : List (Series V)) (lb : Int) (e : Expr V) (f : Value V → Except Err (Value V))
+    (ih : ∀ (steps : List Int) (xs : List (Value V)), evalSteps db lb steps e = .ok xs →
+      xs.length = steps.length ∧ ∀ (i : Nat) (h : i < steps.length) (h' : i < xs.length),
+        evalSteps db lb [steps[i]] e = .ok [xs[i]])
+    (steps : List Int) (ys xs : List (Value V)) (he : evalSteps db lb steps e = .ok ys) (h : mapE f ys = .ok xs)
+    {node : Expr V}
+    (hnode : ∀ t, evalSteps db lb [t] node =
+      (match evalSteps db lb [t] e with
+       | .error err => .error err
+       | .ok zs => mapE f zs)) :
+    xs.length = steps.length ∧ ∀ (i : Nat) (h : i < steps.length) (h' : i < xs.length),
+      evalSteps db lb [steps[i]] node = .ok [xs[i]] := by
+  obtain ⟨hlen, hpt⟩ := ih steps ys he
+  have hl := mapE_ok_length h
+  refine ⟨by omega, ?_⟩
+  intro i hi hi'
+  have hy : i < ys.length := by omega
+  have := mapE_ok_get h i hy hi'
+  rw [hnode, hpt i hi hy]
+  exact mapE_singleton this
+
+/-- the same for a node that combines the values of two children step by step. -/
+theorem pointwise_binary (db : List (Series V)) (lb : Int) (l r : Expr V)
+    (f : Value V × Value V → Except Err (Value V))
+    (ihl : ∀ (steps : List Int) (xs : List (Value V)), evalSteps db lb steps l = .ok xs →
+      xs.length = steps.length ∧ ∀ (i : Nat) (h : i < steps.length) (h' : i < xs.length),
+        evalSteps db lb [steps[i]] l = .ok [xs[i]])
+    (ihr : ∀ (steps : List Int) (xs : List (Value V)), evalSteps db lb steps r = .ok xs →
+      xs.length = steps.length ∧ ∀ (i : Nat) (h : i < steps.length) (h' : i < xs.length),
+        evalSteps db lb [steps[i]] r = .ok [xs[i]])
+    (steps : List Int) (ys zs xs : List (Value V))
+    (hl : evalSteps db lb steps l = .ok ys) (hr : evalSteps db lb steps r = .ok zs)
+    (h : mapE f (ys.zip zs) = .ok xs)
+    {node : Expr V}
+    (hnode : ∀ t, evalSteps db lb [t] node =
+      (match evalSteps db lb [t] l with
+       | .error err => .error err
+       | .ok as =>
+         match evalSteps db lb [t] r with
+         | .error err => .error err
+         | .ok bs => mapE f (as.zip bs))) :
+    xs.length = steps.length ∧ ∀ (i : Nat) (h : i < steps.length) (h' : i < xs.length),
+      evalSteps db lb [steps[i]] node = .ok [xs[i]] := by
+  obtain ⟨hlenl, hptl⟩ := ihl steps ys hl
+  obtain ⟨hlenr, hptr⟩ := ihr steps zs hr
+  have hlen := mapE_ok_length h
+  simp only [List.length_zip] at hlen
+  refine ⟨by omega, ?_⟩
+  intro i hi hi'
+  have hy : i < ys.length := by omega
+  have hz : i < zs.length := by omega
+  have hyz : i < (ys.zip zs).length := by simp only [List.length_zip]; omega
+  have := mapE_ok_get h i hyz hi'
+  simp only [List.getElem_zip] at this
+  rw [hnode, hptl i hi hy, hptr i hi hz]
+  exact mapE_singleton this
+
 /-- node-wise: when the evaluation over `steps` succeeds it has one value per step, and the
 value at step `i` is what the evaluation over the single step `steps[i]` yields. -/
 theorem evalSteps_pointwise (db : List (Series V)) (lb : Int) (e : Expr V) :
@@ -212,22 +270,23 @@ theorem evalSteps_pointwise (db : List (Series V)) (lb : Int) (e : Expr V) :
     simp only [evalSteps, Except.ok.injEq] at h
     subst h
     simp [evalSteps]
-  | sel ms off =>
+  | sel ms off atT =>
     intro steps xs h
     simp only [evalSteps, Except.ok.injEq] at h
     subst h
     simp [evalSteps]
-  | rfn fn rng ms off =>
+  | rfn fn rng ms off atT =>
     intro steps xs h
     unfold evalSteps at h
-    by_cases hd : hasDup (rfnOutLabels db fn rng ms off steps) = true
+    by_cases hd : hasDup (rfnOutLabels db fn rng ms off (steps.map (tAt atT))) = true
     · simp [hd] at h
     · simp only [hd, Bool.false_eq_true, if_false, Except.ok.injEq] at h
       subst h
       refine ⟨by simp, ?_⟩
       intro i hi hi'
-      have hsub := rfnOutLabels_sublist db fn rng ms off steps steps[i] (List.getElem_mem hi)
-      have hd1 : hasDup (rfnOutLabels db fn rng ms off [steps[i]]) = false :=
+      have hmem : tAt atT steps[i] ∈ steps.map (tAt atT) := List.mem_map_of_mem (List.getElem_mem hi)
+      have hsub := rfnOutLabels_sublist db fn rng ms off (steps.map (tAt atT)) (tAt atT steps[i]) hmem
+      have hd1 : hasDup (rfnOutLabels db fn rng ms off [tAt atT steps[i]]) = false :=
         hasDup_sublist hsub (by simpa using hd)
       unfold evalSteps
       simp [hd1]
@@ -238,15 +297,7 @@ theorem evalSteps_pointwise (db : List (Series V)) (lb : Int) (e : Expr V) :
     | error err => simp [he] at h
     | ok ys =>
       simp only [he] at h
-      obtain ⟨hlen, hpt⟩ := ih steps ys he
-      have hl := mapE_ok_length h
-      refine ⟨by omega, ?_⟩
-      intro i hi hi'
-      have hy : i < ys.length := by omega
-      have := mapE_ok_get h i hy hi'
-      unfold evalSteps
-      rw [hpt i hi hy]
-      exact mapE_singleton this
+      exact pointwise_unary db lb e _ ih steps ys xs he h (by intro t; rw [evalSteps]; first | rfl | (cases evalSteps db lb [t] e <;> rfl) | (cases evalSteps db lb [t] l <;> first | rfl | (cases evalSteps db lb [t] r <;> rfl)))
   | bin op isBool mode names l r ihl ihr =>
     intro steps xs h
     unfold evalSteps at h
@@ -257,20 +308,75 @@ theorem evalSteps_pointwise (db : List (Series V)) (lb : Int) (e : Expr V) :
       | error err => simp [hl, hr] at h
       | ok zs =>
         simp only [hl, hr] at h
-        obtain ⟨hlenl, hptl⟩ := ihl steps ys hl
-        obtain ⟨hlenr, hptr⟩ := ihr steps zs hr
-        have hlen := mapE_ok_length h
-        simp only [List.length_zip] at hlen
-        refine ⟨by omega, ?_⟩
-        intro i hi hi'
-        have hy : i < ys.length := by omega
-        have hz : i < zs.length := by omega
-        have hyz : i < (ys.zip zs).length := by simp only [List.length_zip]; omega
-        have := mapE_ok_get h i hyz hi'
-        unfold evalSteps
-        rw [hptl i hi hy, hptr i hi hz]
-        simp only [List.getElem_zip] at this
-        exact mapE_singleton this
+        exact pointwise_binary db lb l r _ ihl ihr steps ys zs xs hl hr h (by intro t; rw [evalSteps]; first | rfl | (cases evalSteps db lb [t] e <;> rfl) | (cases evalSteps db lb [t] l <;> first | rfl | (cases evalSteps db lb [t] r <;> rfl)))
+  | setop op mode names l r ihl ihr =>
+    intro steps xs h
+    unfold evalSteps at h
+    cases hl : evalSteps db lb steps l with
+    | error err => simp [hl] at h
+    | ok ys =>
+      cases hr : evalSteps db lb steps r with
+      | error err => simp [hl, hr] at h
+      | ok zs =>
+        simp only [hl, hr] at h
+        exact pointwise_binary db lb l r _ ihl ihr steps ys zs xs hl hr h (by intro t; rw [evalSteps]; first | rfl | (cases evalSteps db lb [t] e <;> rfl) | (cases evalSteps db lb [t] l <;> first | rfl | (cases evalSteps db lb [t] r <;> rfl)))
+  | binG op isBool mode names incl left l r ihl ihr =>
+    intro steps xs h
+    unfold evalSteps at h
+    cases hl : evalSteps db lb steps l with
+    | error err => simp [hl] at h
+    | ok ys =>
+      cases hr : evalSteps db lb steps r with
+      | error err => simp [hl, hr] at h
+      | ok zs =>
+        simp only [hl, hr] at h
+        exact pointwise_binary db lb l r _ ihl ihr steps ys zs xs hl hr h (by intro t; rw [evalSteps]; first | rfl | (cases evalSteps db lb [t] e <;> rfl) | (cases evalSteps db lb [t] l <;> first | rfl | (cases evalSteps db lb [t] r <;> rfl)))
+  | aggK op param without names e ih =>
+    intro steps xs h
+    unfold evalSteps at h
+    cases he : evalSteps db lb steps e with
+    | error err => simp [he] at h
+    | ok ys =>
+      simp only [he] at h
+      exact pointwise_unary db lb e _ ih steps ys xs he h (by intro t; rw [evalSteps]; first | rfl | (cases evalSteps db lb [t] e <;> rfl) | (cases evalSteps db lb [t] l <;> first | rfl | (cases evalSteps db lb [t] r <;> rfl)))
+  | tsSel ms off atT =>
+    intro steps xs h
+    unfold evalSteps at h
+    have hl := mapE_ok_length h
+    refine ⟨hl, ?_⟩
+    intro i hi hi'
+    have := mapE_ok_get h i hi hi'
+    unfold evalSteps
+    exact mapE_singleton this
+  | tsOf e ih =>
+    intro steps xs h
+    unfold evalSteps at h
+    cases he : evalSteps db lb steps e with
+    | error err => simp [he] at h
+    | ok ys =>
+      simp only [he] at h
+      obtain ⟨hlen, hpt⟩ := ih steps ys he
+      have hl := mapE_ok_length h
+      simp only [List.length_zip] at hl
+      refine ⟨by omega, ?_⟩
+      intro i hi hi'
+      have hy : i < ys.length := by omega
+      have hz : i < (steps.zip ys).length := by simp only [List.length_zip]; omega
+      have := mapE_ok_get h i hz hi'
+      simp only [List.getElem_zip] at this
+      unfold evalSteps
+      rw [hpt i hi hy]
+      simp only [List.zip_cons_cons, List.zip_nil_right]
+      exact mapE_singleton this
+  | subq fn rng stp off e _ =>
+    intro steps xs h
+    unfold evalSteps at h
+    have hl := mapE_ok_length h
+    refine ⟨hl, ?_⟩
+    intro i hi hi'
+    have := mapE_ok_get h i hi hi'
+    unfold evalSteps
+    exact mapE_singleton this
 
 /-- **range_eq_instants**: a successful range query — for every start, end, step — answers at
 each of its evaluation timestamps exactly what the instant query at that timestamp answers,
